@@ -477,7 +477,10 @@ def _enclosing(repo, module, node):
     return best
 
 
-SET_MAKERS = {"set", "frozenset"}
+SET_MAKERS = {"set", "frozenset",
+               # networkx helpers whose result (or iteration order) comes from a set
+               "nx.edge_boundary", "nx.node_boundary", "nx.descendants", "nx.ancestors", "nx.node_connected_component",
+               "nx.non_neighbors", "nx.common_neighbors", "nx.isolates"}
 SET_METHODS = {"union", "intersection", "difference", "symmetric_difference", "copy"}
 
 
